@@ -13,37 +13,37 @@ CHECKS = {
  "C02": ("exploration", "runtime monitoring: Go race detector over deliberately unsynchronised receiver/processer state + in-flight overlap counter, with yields injected at every procStatus/ring operation through a build-time import overlay",
          "No overlapping or racing Receive/Invoke in the executions produced (thousands of contended hand-offs, crashes/restarts and stop callers included). Detection power measured on a load-then-store mutant of schedule().",
          "race detector sees only executed accesses; hooks in -race runs are synchronisation-free", "DESIGN.md §4 C02"),
- "C03": ("exploration", "runtime monitoring: exact trace of the inbox's synchronisation operations (shimmed atomics/ring) + state oracle at goroutine-quiescence (invoked == accepted); window-hit counters as evidence",
+ "C03": ("exploration", "runtime monitoring: exact trace of the inbox's synchronisation operations (shimmed atomics/ring) + state oracle at goroutine-quiescence (invoked == accepted); window-hit counters as evidence; engine workloads (actors started at a later attempt, a crowd of actors all inside Receive) where a measured stall is decided by a kick message (lost wake-up) and by goroutine-dump quiescence (atRest)",
          "Bounded-progress restatement of the liveness claim, decided on state at a quiescent point; the evidence counts how often a push fell into each critical window; a run without window hits is inconclusive.",
          "finite runs cannot show 'never'; goroutine accounting assumes only harness and worker goroutines in the child", "DESIGN.md §4 C03"),
  "C04": ("exploration", "runtime monitoring: recorded per-incarnation delivery log, event-stream log and stop contexts compared with an executable sequential reference model of one actor; batch boundaries pinned by gate messages",
          "Exact agreement of the observed delivery log with the model on every script (lifecycle order, one final Stopped, nothing afterwards, early sends retained, Spawn returns after Started).",
-         "the reference model is written from the property statements; a watchdog expiry without a deviating log is inconclusive", "DESIGN.md §4 C04"),
+         "the reference model is written from the property statements; a watchdog expiry without a deviating log is decided by goroutine-dump quiescence (atRest: process at rest = violation), otherwise inconclusive", "DESIGN.md §4 C04"),
  "C05": ("fault_enumeration", "runtime monitoring with enumerated fault injection: scripted panics at every position (and pair of positions) of a batch, in Initialized/Started, in the replay of the restart buffer; observed logs vs sequential reference model; child-process isolation",
          "The crash-point grid is enumerated completely in the thorough tier (a fixed third in quick); each point is an execution of the real code judged against the model (Stopped to the failed incarnation, restart event count, replay order, no redelivery, process alive).",
          "panics inside the Stopped handler are outside the quantifier", "DESIGN.md §4 C05"),
  "C06": ("fault_enumeration", "runtime monitoring with enumerated fault injection: MaxRestarts x placement of the exhausting panic x inbox content x children, each run in a child process and judged against the reference model and the event stream",
          "Complete enumeration of the grid in the thorough tier; per cell: restart events <= budget, one max-restarts event, one final Stopped after the children, unregistered, later send dead-letters once, process and bystander alive.",
          "same model as C04; process death is attributed to the open case", "DESIGN.md §4 C06"),
- "C07": ("exploration", "runtime monitoring: checks taken at the instant each caller observes ctx.Done() (Stopped finished, unregistered, prior messages handled), scripted pills vs reference model, concurrent callers under injected yields; open finding reproduced by a directed scenario",
+ "C07": ("exploration", "runtime monitoring: checks taken at the instant each caller observes ctx.Done() (Stopped finished, unregistered, prior messages handled), scripted pills vs reference model, concurrent callers under injected yields; a lost request decided on state by two ordered sentinel messages, a hang by goroutine-dump quiescence (atRest); the histories of the repaired findings replayed as directed cases",
          "Every context observed done satisfied the conditions, in scripted (exact model) and free-running multi-caller executions; 'eventually' decided on state (actor seen stopped and unregistered => an open context can never close).",
-         "drain guarantee judged only for single-request scenarios; open finding C07-stop-request-during-stopped-handler listed in known_findings.json", "DESIGN.md §4 C07"),
- "C08": ("exploration", "runtime monitoring: global sequence numbers at begin/end of every Stopped handler, registry probes from inside Stopped, Children()/Parent() read from inside Receive, over PRNG trees with concurrent third-party poisons and injected lock delays",
+         "drain guarantee judged only for single-request scenarios", "DESIGN.md §4 C07"),
+ "C08": ("exploration", "runtime monitoring: global sequence numbers at begin/end of every Stopped handler, registry probes from inside Stopped, Children()/Parent() read from inside Receive, over PRNG trees with concurrent third-party poisons and injected lock delays, plus directed histories (held Stopped handler, respawn race, replacing supervisor, child inside a long Receive)",
          "Every parent/child edge of every tree shut down satisfied child-Stopped-ends-before-parent-Stopped-begins and was unregistered before the stop context was done; Children()/Parent() equal to the model at every comparison point; the histories of the repaired findings replayed as directed cases.",
          "ordering taken from one atomic counter; trees up to 150 nodes, depth 4", "DESIGN.md §4 C08"),
- "C09": ("exploration", "runtime monitoring: k subscribed monitor actors log every event; per-send identity matching (unique tags) of DeadLetterEvent / EngineRemoteMissingEvent; marker rounds through the event stream decide that the event count settles and stays bounded",
+ "C09": ("exploration", "runtime monitoring: k subscribed monitor actors log every event; per-send identity matching (unique tags) of DeadLetterEvent / EngineRemoteMissingEvent; marker rounds through the event stream decide that the event count settles and stays bounded; blocked senders decided by goroutine-dump quiescence (atRest)",
          "Each undeliverable send observed produced exactly one matching event at every live monitor, nil targets none, every send call returned, and the event count settled within the bound - with dead subscribers present.",
          "secondary dead letters to subscribers that died meanwhile are not counted against user sends", "DESIGN.md §4 C09"),
  "C10": ("exploration", "runtime monitoring: Producer invocation counters, duplicate-id events, per-instance receive logs and live intervals (global sequence counter) under injected delays at the registry's lock operations; race detector on the registry",
          "In all concurrent spawn / stop / respawn executions produced exactly one Producer ran per contended id, duplicates changed nothing for the incumbent, instances of one id never overlapped, GetPID followed registration.",
          "live interval = end of Started .. begin of Stopped", "DESIGN.md §4 C10"),
- "C11": ("exploration", "runtime monitoring: per-request call/return records with unique ids, scripted responder behaviours (immediate, before Result, late, twice, never), registry probe after Result, dead-letter matching for late replies",
+ "C11": ("exploration", "runtime monitoring: per-request call/return records with unique ids, scripted responder behaviours (immediate, before Result, late, twice, never, fan-out of concurrent replies, exhausted timeout), registry probe after Result, dead-letter matching for late replies; a Result() that never returns decided by goroutine-dump quiescence (atRest)",
          "Every Result observed returned the reply to its own request or an error not earlier than the timeout; response PIDs were unregistered afterwards; each late/second reply became exactly one DeadLetterEvent for that response PID.",
          "response-id collisions (2^-31 per pair) are classified, not judged; the timeout is judged from below only", "DESIGN.md §4 C11"),
- "C12": ("exploration", "runtime monitoring: per-subscriber event logs compared with a set-semantics reference model over single-goroutine histories (equal PIDs in distinct objects), per-broadcaster order under concurrent broadcasters, exact engine-event multisets for lifecycle scripts",
+ "C12": ("exploration", "runtime monitoring: per-subscriber event logs compared with a set-semantics reference model over single-goroutine histories (equal PIDs in distinct objects), per-broadcaster order under concurrent broadcasters, exact engine-event multisets for lifecycle scripts; a recording Remoter for subscribers on other nodes",
          "Every history produced the exact expected log at every subscriber; concurrent broadcasters' events arrived once and in per-broadcaster order; lifecycle scripts published exactly the expected events.",
          "flush by sentinel marker + direct message", "DESIGN.md §4 C12"),
- "C13": ("exploration", "runtime monitoring: recording middleware (enter / deferred exit) interleaved with the receiver log, checked for well nested blocks on all delivery paths of the scripted scenarios",
+ "C13": ("exploration", "runtime monitoring: recording middleware (enter / deferred exit) interleaved with the receiver log, checked for well nested blocks on all delivery paths of the scripted scenarios; a filtering middleware whose swallowed deliveries must end at the filter",
          "Every delivery observed (user, Initialized, Started, Stopped; normal, crash, restart, replay, max-restarts, shutdown) was wrapped exactly once by each layer in order.",
          "does not demand a nil sender on lifecycle deliveries", "DESIGN.md §4 C13"),
  "C14": ("exploration", "runtime monitoring: differential test against a slice model, linearizability checking of recorded concurrent histories with porcupine, race detector + conservation/order checks under stress",
@@ -61,9 +61,9 @@ CHECKS = {
  "C19": ("exploration", "runtime monitoring: quiescent histories of a multi-node cluster of real Cluster objects over an in-memory Remoter (real ProtoSerializer round trip, PRNG delivery order), compared on every node with a sequential reference model of the cluster; producer-run counters per node",
          "After every operation of every generated history all nodes agreed with the model (activation placement by the select function, uniqueness, propagation, topology transfer to joiners, deactivation, purge on leave).",
          "in-memory network instead of TCP; concurrent conflicting activations out of scope", "DESIGN.md §4 C19"),
- "C17": ("exploration", "runtime monitoring over real loopback TCP (public API only, child processes in private network namespaces): exactly-once/order/sender oracles on recorded deliveries in up phases, event-stream monitors for RemoteUnreachableEvent and stream dead letters in down phases, peer restarts on the same address, listener probes",
+ "C17": ("exploration", "runtime monitoring over real loopback TCP (public API only, child processes in private network namespaces): exactly-once/order/sender oracles on recorded deliveries in up phases, event-stream monitors for RemoteUnreachableEvent and stream dead letters in down phases, peer restarts on the same address (also behind a bare listener that goes away, with subscribers re-sending on the event), CA-verified TLS peers, listener probes",
          "All up phases delivered exactly once, in per-(sender,target) order, with senders and correlated replies; every down phase reported the peer unreachable and dead-lettered exactly the burst; after each peer restart fresh sends got through (also with senders running across the peer's death and delays injected before registry writes); Stop closed the listener; double Start/Stop harmless.",
-         "few down phases per run (3 s each); in-flight messages at connection loss not judged; TLS transport not exercised", "DESIGN.md §4 C17"),
+         "few down phases per run (3 s each); in-flight messages at connection loss not judged", "DESIGN.md §4 C17"),
  "C20": ("exploration", "runtime monitoring of the real SelfManaged provider (zeroconf on, private network namespace): handshake replies captured by a probe actor, agent view and restart events compared with a list model after every step; unreachable reports injected through the event stream and flushed with a sentinel member",
          "After every step of every generated sequence the provider's list (as answered to handshakes), the agent's view and the model agreed; reports for non-members changed nothing; the provider never restarted.",
          "member hosts are listening remotes; hosts unique; own address never reported", "DESIGN.md §4 C20"),
